@@ -3,6 +3,11 @@ package harness
 import (
 	"sort"
 	"testing"
+
+	sdk "github.com/cosmos/cosmos-sdk/types"
+	"github.com/cosmos/cosmos-sdk/types/query"
+
+	clienttypes "github.com/teleport-network/teleport/x/xibc/core/client/types"
 )
 
 func init() { Drivers["store"] = driveStore }
@@ -67,5 +72,50 @@ func storeLine(l *LC, line M) M {
 		rt.Extra = []interface{}{}
 	}
 	line["rt"] = M{"validate": clip(rt.Validate), "init": clip(rt.Init), "missing": rt.Missing, "extra": rt.Extra, "equal2": rt.Equal2}
+	line["rb"] = readBack(l)
 	return line
+}
+
+// readBack compares, per client, the consensus heights present in the raw store with the heights each reader of the
+// code returns: the keeper's iterator, and the gRPC ConsensusStates query (both parse the height out of the key).
+func readBack(l *LC) M {
+	c := l.C
+	ctx := c.Ctx()
+	k := c.App.XIBCKeeper.ClientKeeper
+	byIter := map[string]map[string]bool{}
+	k.IterateConsensusStates(ctx, func(name string, cs clienttypes.ConsensusStateWithHeight) bool {
+		if byIter[name] == nil {
+			byIter[name] = map[string]bool{}
+		}
+		byIter[name][cs.Height.String()] = true
+		return false
+	})
+	var missIter, missQuery []interface{}
+	n := 0
+	for _, ic := range k.GetAllGenesisClients(ctx) {
+		name := ic.ChainName
+		byQuery := map[string]bool{}
+		res, err := k.ConsensusStates(sdk.WrapSDKContext(ctx), &clienttypes.QueryConsensusStatesRequest{ChainName: name, Pagination: &query.PageRequest{Limit: 10000}})
+		if err == nil {
+			for _, cs := range res.ConsensusStates {
+				byQuery[cs.Height.String()] = true
+			}
+		}
+		for _, h := range l.ConsHeights(name) {
+			n++
+			if !byIter[name][h.String()] {
+				missIter = append(missIter, AbsName(name)+"@"+h.String())
+			}
+			if !byQuery[h.String()] {
+				missQuery = append(missQuery, AbsName(name)+"@"+h.String())
+			}
+		}
+	}
+	if missIter == nil {
+		missIter = []interface{}{}
+	}
+	if missQuery == nil {
+		missQuery = []interface{}{}
+	}
+	return M{"heights": n, "missing_iter": missIter, "missing_query": missQuery}
 }
